@@ -29,6 +29,10 @@ def inductive(ctx, quick):
             raise Undecided("inductive invariant FlushInd.tla: obligation %s /\\ [Next]^%d => %s has a counterexample (%s)\n%s" % (i, n, v, c, out[-2000:]))
         if not want_ok and r == "ok":
             raise Undecided("non-vacuity: the deviation %s was expected to break the induction of FlushInd.tla and did not" % c)
+    if not quick:
+        # ... and for EVERY number of nodes: the TLAPS proof that IndInv is inductive and implies the invariants (informative, see run_tlapm)
+        pr = run_tlapm(ctx, "FlushProof.tla", timeout=3000)
+        res["tlaps"] = dict(module="FlushProof.tla", obligations_proved=pr[0], obligations_failed=pr[1])
     return res
 
 
